@@ -100,6 +100,12 @@ def finish(ctx, level_text, seed=0):
     ctx.rule_texts.setdefault("ENGINE", "the summariser has no blind spot on the functions this check traversed: no closure that (transitively) "
                                         "writes storage is handed to an external call the primitive table does not model, and no path cap was hit")
     for nm, clos in sorted(ctx.engine.blind):
+        if clos.startswith("@"):
+            ctx.ob("ENGINE", "storage accessed through unmodelled %s in %s" % (nm, clos[1:]), None,
+                   detail="UNDECIDED: %s is called in %s; the primitive table cannot attribute this storage access to a cell, so "
+                          "its effect is invisible to the rules (raw Storage::set/remove or an accessor kind the tables do not cover)"
+                          % (nm, clos[1:]))
+            continue
         ctx.ob("ENGINE", "effectful closure %s passed to unmodelled %s" % (clos, nm), None,
                detail="UNDECIDED: closure %s writes storage but is invoked by %s, which the primitive table does not model; its effects "
                       "are invisible to the rules" % (clos, nm))
